@@ -103,6 +103,7 @@ theorem connRun_outputs_le_one (sh : Shared) (es : List Ev) (c : ConnSt) :
     | done => simp [connStep, connRun_done]
     | reading buf =>
       cases e with
+      | accept => simpa [connStep] using ih _
       | data bs =>
         simp only [connStep]
         split
@@ -181,5 +182,37 @@ theorem connRun_held (sh : Shared) (chunks : List (List Nat)) (buf : List Nat)
     simp only [List.map_cons, connRun, connStep, hc, Bool.false_eq_true, ↓reduceIte,
       Option.toList_none, List.nil_append, List.flatten_cons]
     rw [ih (buf ++ bs) (by simpa [List.append_assoc] using h), List.append_assoc]
+
+/-! ### a socket that has only been accepted (zero bytes so far) is no step of anything -/
+
+theorem connStep_accept (sh : Shared) (c : ConnSt) : connStep sh c .accept = (c, none) := by
+  cases c <;> rfl
+
+theorem connRun_accept (sh : Shared) (c : ConnSt) (es : List Ev) :
+    connRun sh c (.accept :: es) = connRun sh c es := by
+  simp [connRun, connStep_accept]
+
+/-- dropping the `accept` events of a socket's own trace changes neither its outputs nor the state
+its task ends in. -/
+theorem connRun_filter_accept (sh : Shared) (es : List Ev) (c : ConnSt) :
+    connRun sh c (es.filter (· ≠ .accept)) = connRun sh c es := by
+  induction es generalizing c with
+  | nil => rfl
+  | cons e es ih =>
+    by_cases he : e = .accept
+    · subst he
+      rw [connRun_accept]
+      simpa using ih c
+    · have : (e :: es).filter (· ≠ .accept) = e :: es.filter (· ≠ .accept) := by simp [he]
+      rw [this]
+      simp only [connRun, ih]
+
+theorem proj_filter_accept (i : Nat) (evs : List (Nat × Ev)) :
+    proj i (evs.filter (fun p => p.2 ≠ .accept)) = (proj i evs).filter (· ≠ .accept) := by
+  induction evs with
+  | nil => rfl
+  | cons p rest ih =>
+    obtain ⟨j, e⟩ := p
+    by_cases he : e = .accept <;> by_cases hj : j = i <;> simp [proj, he, hj] at ih ⊢ <;> exact ih
 
 end Cascette.Proofs.RibbitConn
